@@ -180,7 +180,7 @@ def history_case(ctx, idx, rng):
     charges = bool(rng.random() < 0.5)
     pool = gen.OID_POOLS[int(rng.integers(0, len(gen.OID_POOLS)))]
     ctx.pool = pool
-    g = gen.rand_graph(rng, L, idbase=int(rng.integers(0, 4)), maxw=(4 if rng.random() < 0.3 else 3) if idx % 6 != 1 else 2, nops=3, charges=charges, pool=pool)
+    g = gen.rand_graph(rng, L, idbase=int(rng.integers(0, 4)), maxw=(4 if rng.random() < 0.3 else 3) if idx % 6 != 1 else 2, nops=3, charges=charges, pool=pool, zero_edges=bool(idx % 4 == 3))
     twins = 0
     if idx % 3 == 1:
         # duplicated path prefixes / suffixes: twin nodes reached through IDENTICAL operator lists, with equal or with different labels
